@@ -527,6 +527,72 @@ def gen_facade(mods):
         lines.append("Definition F_%s : fmethod := mkF %s [%s] %s\n  [%s].\n" % (
             fn.name, coq_str(fn.name), "; ".join("(%s, %s)" % (coq_str(p), dflt(d)) for p, d in zip(params, defaults)),
             "true" if kwname else "false", ";\n   ".join(acts)))
+    # ---- everything else in class SCSI: only the members below, in exactly these shapes; anything else (a helper, a cache, a
+    # ---- class-level attribute, a decorated method, a wrapper that does more than pass the call on) is reported as unknown
+    def is_doc(st):
+        return isinstance(st, ast.Expr) and isinstance(st.value, ast.Constant) and isinstance(st.value.value, str)
+
+    def body_of(fn):
+        return [st for st in fn.body if not is_doc(st)]
+
+    def execute_passthrough(fn):
+        a = fn.args
+        if [x.arg for x in a.args] != ["self", "cmd", "en_raw_sense"] or a.vararg or a.kwarg or a.kwonlyargs or len(a.defaults) != 1 \
+                or not (isinstance(a.defaults[0], ast.Constant) and a.defaults[0].value is False):
+            return False
+
+        def the_call(st):
+            c = st.value if isinstance(st, (ast.Expr, ast.Return)) else None
+            if not (isinstance(c, ast.Call) and dotted(c.func) == "self.device.execute"):
+                return False
+            pos = [dotted(x) for x in c.args]
+            kws = {k.arg: dotted(k.value) for k in c.keywords}
+            return (pos == ["cmd"] and kws == {"en_raw_sense": "en_raw_sense"}) or (pos == ["cmd", "en_raw_sense"] and not kws)
+        b = body_of(fn)
+        if len(b) == 1 and the_call(b[0]):
+            return True
+        if len(b) == 1 and isinstance(b[0], ast.Try) and not b[0].orelse and not b[0].finalbody and len(b[0].body) == 1 and the_call(b[0].body[0]) \
+                and len(b[0].handlers) == 1:
+            h = b[0].handlers[0]
+            if dotted(h.type) == "Exception" and h.name and len(h.body) == 1 and isinstance(h.body[0], ast.Raise) and h.body[0].cause is None \
+                    and (h.body[0].exc is None or dotted(h.body[0].exc) == h.name):
+                return True
+        return False
+    method_names = {m["name"] for m in methods}
+    seen_members = []
+    for b in (cls.body if cls else []):
+        if is_doc(b):
+            continue
+        if not isinstance(b, ast.FunctionDef):
+            unknown.append("SCSI: class-level statement: %s" % src_of(b, mod.text)[:100])
+            continue
+        decos = [dotted(x) or "?" for x in b.decorator_list]
+        seen_members.append(b.name)
+        if b.name in method_names and not decos:
+            continue
+        if b.name == "blocksize" and decos in (["property"], ["blocksize.setter"]):
+            continue
+        if decos:
+            unknown.append("SCSI.%s: decorated member (%s)" % (b.name, ", ".join(decos)))
+        elif b.name in ("__init__", "__call__") or b.name.endswith("__init_opcode"):
+            continue            # their stores are regenerated (facade_state_writes), the attach table below
+        elif b.name == "execute":
+            if not execute_passthrough(b):
+                unknown.append("SCSI.execute: does more than hand the command to the device once: %s" % " ".join(src_of(b, mod.text).split())[:160])
+        elif b.name == "__enter__":
+            bb = body_of(b)
+            if not (len(bb) == 1 and isinstance(bb[0], ast.Return) and dotted(bb[0].value) == "self"):
+                unknown.append("SCSI.__enter__: %s" % " ".join(src_of(b, mod.text).split())[:120])
+        elif b.name == "__exit__":
+            bb = body_of(b)
+            if not (len(bb) == 1 and isinstance(bb[0], ast.Expr) and isinstance(bb[0].value, ast.Call) and dotted(bb[0].value.func) == "self.device.close"
+                    and not bb[0].value.args and not bb[0].value.keywords):
+                unknown.append("SCSI.__exit__: %s" % " ".join(src_of(b, mod.text).split())[:120])
+        else:
+            unknown.append("SCSI.%s: a member that is neither a facade method nor one of the known helpers" % b.name)
+    for nm in set(seen_members):
+        if seen_members.count(nm) > 1 and nm != "blocksize":
+            unknown.append("SCSI.%s: defined twice" % nm)
     lines.append("Definition facade_methods : list fmethod := [%s].\n" % "; ".join("F_" + m["name"] for m in methods))
     lines.append("Definition doc_kwargs : list (string * list string) := [%s].\n" % "; ".join(
         "(%s, [%s])" % (coq_str(m["name"]), "; ".join(coq_str(k) for k in m["doc_kwargs"])) for m in methods))
@@ -1231,6 +1297,62 @@ def gen_footprint(mods):
                 for f in node.body:
                     if isinstance(f, ast.FunctionDef):
                         scan(f, node.name)
+        if helper_only:
+            continue
+        # ---- class-level mutable objects (one object for ALL instances) that are changed in place at run time through any receiver
+        # ---- (self.X.update(..), self.X[k] = v, cls.X.append(..)): state shared between command objects
+        for cnode in mod.tree.body:
+            if not isinstance(cnode, ast.ClassDef):
+                continue
+            cmut = set()
+            for st in cnode.body:
+                tg = st.targets if isinstance(st, ast.Assign) else ([st.target] if isinstance(st, ast.AnnAssign) and st.value is not None else [])
+                v = getattr(st, "value", None)
+                if tg and (isinstance(v, (ast.Dict, ast.List, ast.Set, ast.ListComp, ast.DictComp, ast.SetComp))
+                           or (isinstance(v, ast.Call) and dotted(v.func) in ("dict", "list", "set", "bytearray", "collections.OrderedDict",
+                                                                                 "OrderedDict", "defaultdict", "collections.defaultdict"))):
+                    for t in tg:
+                        if isinstance(t, ast.Name):
+                            cmut.add(t.id)
+            rebound = set()     # instance attributes of the same name bound afresh in __init__ hide the class-level object
+            for f in cnode.body:
+                if isinstance(f, ast.FunctionDef) and f.name == "__init__":
+                    for n2 in ast.walk(f):
+                        if isinstance(n2, ast.Assign):
+                            for t in n2.targets:
+                                if isinstance(t, ast.Attribute) and dotted(t.value) == "self":
+                                    rebound.add(t.attr)
+            cmut -= rebound
+            if not cmut:
+                continue
+            for f in cnode.body:
+                if not isinstance(f, ast.FunctionDef):
+                    continue
+                where = "%s.%s.%s" % (mod.stem, cnode.name, f.name)
+                for n2 in ast.walk(f):
+                    hit = None
+                    if isinstance(n2, ast.Call) and isinstance(n2.func, ast.Attribute) and n2.func.attr in MUT \
+                            and isinstance(n2.func.value, ast.Attribute) and n2.func.value.attr in cmut:
+                        hit = n2
+                    tg = n2.targets if isinstance(n2, (ast.Assign, ast.Delete)) else ([n2.target] if isinstance(n2, ast.AugAssign) else [])
+                    for t in tg:
+                        if isinstance(t, ast.Subscript) and isinstance(t.value, ast.Attribute) and t.value.attr in cmut:
+                            hit = n2
+                        if isinstance(n2, ast.AugAssign) and isinstance(t, ast.Attribute) and t.attr in cmut:
+                            hit = n2
+                    if hit is not None:
+                        shared.append("%s: %s   (class-level object shared by all instances, changed in place)" % (
+                            where, src_of(hit, mod.text).split("\n")[0][:90]))
+        # ---- a command class that replaces one of the base class's own methods / properties: the models of SCSICommand (encode, decode,
+        # ---- unmarshall, buffers) no longer describe that class
+        if mod.stem != "scsi_command":
+            base_api = {"unmarshall", "marshall_cdb", "unmarshall_cdb", "build_cdb", "init_cdb", "print_cdb", "cdb", "datain", "dataout", "result",
+                        "opcode", "pagecode", "sense", "raw_sense_data", "__repr__", "__getattr__", "__getattribute__", "__setattr__"}
+            for cnode in mod.tree.body:
+                if isinstance(cnode, ast.ClassDef) and cnode.bases:
+                    for f in cnode.body:
+                        if isinstance(f, ast.FunctionDef) and f.name in base_api:
+                            shared.append("%s.%s.%s: overrides a method of SCSICommand" % (mod.stem, cnode.name, f.name))
     # a helper that mutates its parameter is harmless when every call site hands it a fresh copy
     # (n = dict(...), n = x.copy(), n = {...} in the calling function)
     def fresh_at_all_call_sites(fname, pidx):
